@@ -1,5 +1,6 @@
 import RubyTi.Proofs.MatchLemmas
 import RubyTi.Proofs.BindLemmas
+import RubyTi.Gen.StrategyFacts
 
 /-!
 # C07 — definite misuse is reported (the per-argument decision)
@@ -176,5 +177,10 @@ example :
     bind ps ([T.makeInt, T.makeAnyString, T.makeInt].map Arg.pos) = .tooMany ∧ bind ps [] = .tooFew ∧
     bind ps ([T.makeFloat].map Arg.pos) = .mismatch ∧ bind ps ([T.makeInt].map Arg.pos) = .ok := by decide
 end
+
+/-- Union receivers: every class of the receiver is checked with the binding loop above, and an argument error that
+none of that class's declarations lifts is returned (regenerated from checkAndPropagateArgsForUnionWithReturnT):
+the theorems about one declaration carry over to a call on a union receiver class by class. -/
+theorem union_receiver_error_is_returned : Gen.unionReceiverErrorSurvivesOverloads = true := by decide
 
 end RubyTi.C07
